@@ -31,6 +31,7 @@ class Runtime:
     def __init__(self):
         self.STUBS = {}
         self.entered = set()
+        self.assumed = set()
         self.record = True
 
     # --- evidence: which real functions ran symbolically
@@ -217,6 +218,41 @@ class ReShim(types.ModuleType):
 
 RESHIM = ReShim()
 
+
+class TextwrapShim(types.ModuleType):
+    """`textwrap` for instrumented modules.  dedent on a symbolic string is the
+    identity under a CHECKED precondition (no blank-only line, empty common
+    margin); where the precondition can fail the path is restricted to it and
+    the restriction is recorded (RT.assumed) - it is part of the claim."""
+
+    def __init__(self):
+        import textwrap as real
+        super().__init__('textwrap')
+        self.__dict__.update({k: v for k, v in real.__dict__.items() if not k.startswith('__')})
+        self._real = real
+        self.dedent = self._sea_dedent
+
+    def _sea_dedent(self, text):
+        if not isinstance(text, SymStr):
+            return self._real.dedent(text)
+        c = text.const()
+        if c is not None:
+            return self._real.dedent(c)
+        f = RT.STUBS.get('dedent')
+        if f is not None:
+            return f(text)
+        import z3
+        from .symstr import dedent_identity_cond
+        cond = dedent_identity_cond(text)
+        e = core.ex()
+        if e.check(z3.Not(cond)) != z3.unsat:
+            RT.assumed.add('textwrap.dedent is the identity on the symbolic text (no blank-only line, some line flush left)')
+            e.assume_checked(cond)
+        return text
+
+
+TWSHIM = TextwrapShim()
+
 CALL_BUILTINS = {'len', 'repr', 'str', 'int', 'bool', 'isinstance', 'min', 'max', 'sum',
                  'compile', 'exec', 'eval', 'print'}
 
@@ -294,9 +330,9 @@ class Transformer(ast.NodeTransformer):
     def visit_Import(self, node):
         out = []
         for al in node.names:
-            if al.name == 're':
+            if al.name in ('re', 'textwrap'):
                 out.append(ast.copy_location(
-                    ast.ImportFrom('sea_shims', [ast.alias('re', al.asname)], 0), node))
+                    ast.ImportFrom('sea_shims', [ast.alias(al.name, al.asname)], 0), node))
             else:
                 out.append(ast.copy_location(ast.Import([al]), node))
         return out
@@ -364,6 +400,7 @@ def install(root=None):
         raise RuntimeError('xdoctest imported before instrumentation')
     shims = types.ModuleType('sea_shims')
     shims.re = RESHIM
+    shims.textwrap = TWSHIM
     sys.modules['sea_shims'] = shims
     sys.dont_write_bytecode = True
     sys.meta_path.insert(0, Finder(root))
